@@ -1379,6 +1379,124 @@ fn select_systematic(out: &mut Vec<Vec<u64>>) {
     }
 }
 
+// ---------------------------------------------------------------- yamux frames, WebRTC codec, TLS certificates
+
+fn yamux_frame(version: u8, ty: u8, flags: u16, stream: u32, len: u32, body: &[u8]) -> Vec<u8> {
+    let mut v = vec![version, ty];
+    v.extend(flags.to_be_bytes());
+    v.extend(stream.to_be_bytes());
+    v.extend(len.to_be_bytes());
+    v.extend(body);
+    v
+}
+fn yamux_stream(rng: &mut Rng) -> Vec<u8> {
+    let mut s = Vec::new();
+    for _ in 0..rng.range(1, 6) {
+        let ty = if rng.chance(8) { rng.below(256) as u8 } else { rng.below(4) as u8 };
+        let version = if rng.chance(5) { rng.below(256) as u8 } else { 0 };
+        let flags = if rng.chance(10) { rng.below(65536) as u16 } else { rng.pick(&[0u16, 1, 2, 4, 8, 3]) };
+        let stream = rng.pick(&[0u32, 1, 2, 3, 5, u32::MAX]);
+        let n = rng.below(40);
+        let len = match rng.below(10) {
+            0 => rng.pick(&[0u32, 1, 256 * 1024, 256 * 1024 + 1, 1 << 20, (1 << 20) + 1, 1 << 24, u32::MAX - 1, u32::MAX]),
+            1 => n as u32 + 1,
+            _ => n as u32,
+        };
+        let body = if ty == 0 { rand_bytes(rng, n as usize) } else { vec![] };
+        s.extend(yamux_frame(version, ty, flags, stream, len, &body));
+    }
+    if rng.chance(20) {
+        s = mutate_bytes(rng, s);
+    }
+    s
+}
+fn webrtc_wire(rng: &mut Rng) -> Vec<u8> {
+    let mut t = Vec::new();
+    if rng.chance(70) {
+        t.push(fv(1, if rng.chance(15) { rng.pick(&[4u64, 5, u64::MAX, 1 << 31]) } else { rng.below(4) }));
+    }
+    if rng.chance(70) {
+        t.push(fb(2, &small_bytes(rng, 60)));
+    }
+    let body = finish(rng, t);
+    let mut w = match rng.below(8) {
+        0 => wmsg_lie(&body, pick_extreme(rng), rng.pick(&[0usize, 10])),
+        1 => wmsg_lie(&body, rng.pick(&[16383u64, 16384, 16385, body.len() as u64 + 1]), 0),
+        _ => wmsg(&body),
+    };
+    if rng.chance(30) {
+        w.extend(small_bytes(rng, 8));
+    }
+    if rng.chance(10) {
+        let n = rng.below(w.len() as u64 + 1) as usize;
+        w.truncate(n);
+    }
+    w
+}
+/// DER-aware damage: a length octet replaced by short / long-form extremes, truncation, flips
+fn tls_mutant(rng: &mut Rng, der: &[u8]) -> Vec<u8> {
+    let mut b = der.to_vec();
+    match rng.below(6) {
+        0 => {
+            let n = rng.below(b.len() as u64 + 1) as usize;
+            b.truncate(n);
+        }
+        1 | 2 => {
+            // find a constructed / string tag and rewrite the length that follows it
+            let i = rng.below(b.len() as u64 - 2) as usize;
+            let j = (i..b.len() - 1).find(|k| matches!(b[*k], 0x30 | 0x31 | 0x04 | 0x03 | 0x06 | 0xa0 | 0xa3)).unwrap_or(i);
+            let lie: Vec<u8> = match rng.below(7) {
+                0 => vec![0],
+                1 => vec![0x7f],
+                2 => vec![0x80],
+                3 => vec![0x81, 0xff],
+                4 => vec![0x84, 0xff, 0xff, 0xff, 0xff],
+                5 => vec![0x88, 0xff, 0xff, 0xff, 0xff, 0xff, 0xff, 0xff, 0xff],
+                _ => vec![0xff],
+            };
+            b.splice(j + 1..j + 2, lie);
+        }
+        3 => return mutate_bytes(rng, b),
+        4 => {
+            let i = rng.below(b.len() as u64) as usize;
+            b[i] ^= 1 << rng.below(8);
+        }
+        _ => {}
+    }
+    b
+}
+pub fn feature_systematic(tls_seed: Option<&[u8]>) -> Vec<Vec<u64>> {
+    let mut out = Vec::new();
+    let mut rng = Rng::new(0x7151);
+    if let Some(der) = tls_seed {
+        out.push(c1(18, der));
+        for i in (0..=der.len()).step_by(3) {
+            out.push(c1(18, &der[..i]));
+        }
+        for _ in 0..400 {
+            out.push(c1(18, &tls_mutant(&mut rng, der)));
+        }
+    }
+    // WebRTC framing: every extreme length, every truncation of a full message
+    let body = ser(&[fv(1, 2), fb(2, b"hello")]);
+    for v in all_extremes().into_iter().chain([16383, 16384, 16385]) {
+        for w in [0usize, 10] {
+            out.push(c1(19, &wmsg_lie(&body, v, w)));
+        }
+    }
+    let full = wmsg(&body);
+    for i in 0..=full.len() {
+        out.push(c1(19, &full[..i]));
+    }
+    out
+}
+pub fn feature_random(rng: &mut Rng, tls_seed: Option<&[u8]>) -> Vec<u64> {
+    match tls_seed {
+        Some(der) if rng.chance(50) => c1(18, &tls_mutant(rng, der)),
+        _ => c1(19, &webrtc_wire(rng)),
+    }
+}
+
 fn rt_kad_peer(rng: &mut Rng, c: &mut Vec<u64>, max_addrs: u64, conn: Option<u64>) {
     let id = peer_id(rng);
     el(c, &id);
@@ -1625,7 +1743,8 @@ pub fn random_case(rng: &mut Rng) -> Vec<u64> {
         }
         40..=41 => noise_random(rng),
         42..=43 => codec_random(rng),
-        44..=45 => select_random(rng),
+        44 => select_random(rng),
+        45 => c1(21, &yamux_stream(rng)),
         46..=49 => {
             let max = rng.pick(&[64u64, 1024, 70 * 1024]);
             let s = frame_stream(rng, max);
@@ -1692,6 +1811,20 @@ pub fn systematic(thorough: bool) -> Vec<Vec<u64>> {
     noise_systematic(&mut out, thorough);
     codec_systematic(&mut out);
     select_systematic(&mut out);
+    {
+        let mut rng = Rng::new(0x7a);
+        for len in [0u32, 1, 256 * 1024, 256 * 1024 + 1, 1 << 20, (1 << 20) + 1, u32::MAX] {
+            for ty in 0..4u8 {
+                for flags in [0u16, 1, 2] {
+                    out.push(c1(21, &yamux_frame(0, ty, flags, 1, len, &[1, 2, 3])));
+                }
+            }
+        }
+        let s = yamux_stream(&mut rng);
+        for i in 0..=s.len().min(120) {
+            out.push(c1(21, &s[..i]));
+        }
+    }
     let reps = if thorough { 4 } else { 1 };
     for _ in 0..reps {
         // Kademlia
